@@ -12,8 +12,10 @@ import (
 // given.  That object (the message's attribute template) must not afterwards reach a handler that stores paths for the
 // NLRI of another field of the same message: those would carry the multiprotocol next hop instead of "the message's
 // attributes" (NEXT_HOP).  Summaries (to a fixpoint over the BGP server package):
-//   writesNH(fn, i): fn assigns <param i>.….NextHop from MultiProtocolReachNLRI.NextHop, or hands param i to such a fn
-//   stores(fn, i):   fn hands param i (or a value defined from it, e.g. its Copy()) to AdjRIBIn.AddPath, or to such a fn
+//
+//	writesNH(fn, i): fn assigns <param i>.….NextHop from MultiProtocolReachNLRI.NextHop, or hands param i to such a fn
+//	stores(fn, i):   fn hands param i (or a value defined from it, e.g. its Copy()) to AdjRIBIn.AddPath, or to such a fn
+//
 // Rule: no variable is passed to a writesNH callee and, on a path after that call, to a stores callee that is not the
 // multiprotocol writer itself.
 func mpNextHopStaysInMPPath(c *core.Ctx) {
